@@ -449,7 +449,9 @@ def necessary(case, d):
                     c, payload = unpack8(rest)
                     pubs.add((i, c, bytes(payload)))
             except Exception:
-                break
+                # an undecodable body says nothing about the frames behind it (the broker does not even look at the body of
+                # a non-AUTH frame from a connection without an identity): keep scanning, frame boundaries are unaffected
+                continue
         return va, subs, pubs
     for k, rec in enumerate(d.trace):
         ev = rec['ev']
